@@ -25,7 +25,7 @@ package tls
 //@ spec tail12(r) = string(r[24:]) == downgradeCanaryTLS12
 //@ spec tail11(r) = string(r[24:]) == downgradeCanaryTLS11
 //@ func (*UConn).clientHandshake
-//@   property C01 C12 C13
+//@   property C01 C12 C13 C19
 //@   unchecked safety pre
 //@   note unchecked: thin contract, see the comment above; panic-freedom of this function and the preconditions of its callees are listed assumptions
 //@   requires c != nil && c.HandshakeState.Hello != nil
@@ -37,6 +37,8 @@ package tls
 //@   at before call getPublicPtr#0: assert nodowngrade12: callres(maxSupportedVersion, 0) == VersionTLS12 && c.vers <= VersionTLS11 ==> !tail11(arg0.random)
 //@   at before call handshake#0: assert hs12_hello: arg0.hello == callres(getPrivatePtr, 0) && arg0.serverHello == callarg(pickTLSVersion, 0, 1)
 //@   at before call handshake#1: assert hs13_hello: arg0.hello == callres(getPrivatePtr, 0) && arg0.serverHello == callarg(pickTLSVersion, 0, 1)
+//@   at before call writeHandshakeRecord#0: assert evict_registered: session != nil ==> deferred(clientHandshake$2)
+//@   note evict_registered (C19: a failed resumption never breaks the next handshake): whenever a session is offered -- loaded from the cache or injected and locked -- the deferred cleanup that drops the cached entry after a failed handshake is registered
 //@   loop 0 invariant -1 <= $rangeindex
 
 // The deferred closure publishes the hello object the handshake used: afterwards HandshakeState.Hello.Raw is the
@@ -191,3 +193,15 @@ package tls
 //@   requires ka != nil && clientHello != nil
 //@   at before call generateECDHEKey#0: assert curve_offered: len(clientHello.supportedCurves) > 0 ==> exists j in 0..len(clientHello.supportedCurves): clientHello.supportedCurves[j] == arg1
 //@   ensures curve_checked: ret == nil ==> called(generateECDHEKey, 0)
+
+
+// The cleanup registered by clientHandshake when a session is offered: after a failed handshake the cached entry of
+// this server is deleted (Put(key, nil)), so the next connection does a full handshake (C19).
+//@ func (*UConn).clientHandshake$2
+//@   property C19
+//@   unchecked safety pre
+//@   note unchecked: thin contract (control flow only)
+//@   requires err != nil && c != nil
+//@   ensures evicts_on_failure: old((*err) != nil) && called(clientSessionCacheKey, 0) && callres(clientSessionCacheKey, 0) != "" ==> called(Put, 0) && callarg(Put, 0, 1) == callres(clientSessionCacheKey, 0) && callarg(Put, 0, 2) == nil
+//@   ensures asks_key: old((*err) != nil) ==> called(clientSessionCacheKey, 0)
+//@   ensures quiet_on_success: old((*err) == nil) ==> !called(Put, 0)
